@@ -176,10 +176,86 @@ def regex_lemmas(ctx, real):
     ctx.solve()
 
 
+# ------------------------------------------------------------------------------------------------
+# P-02c  split_gpg_and_payload on unsigned input: the payload is exactly the lines (CR / LF stripped at both ends), nothing is
+# taken for armor and nothing is cut off - whenever no stripped line matches _gpgre or the blank-line pattern in force.  (That the
+# lines dump() writes satisfy this is R-02d.)  The regex tests are the SAME uninterpreted applications in code and contract, so
+# any change to what is handed to them (line.lstrip(), a different pattern object, a different strip) breaks the obligations.
+from vf.pyvc.speclib import SpecLib
+from vf.pyvc.world import World, Contract
+from vf.pyvc.interp import LoopSpec
+from vf.pyvc.values import VBox, VSeq, VBool, VFunc, NONE, fresh, fresh_name, lift
+from vf.pyvc.driver import verify_contracts
+
+
+def stripped(seq):
+    """the lines without CR / LF at either end"""
+    if len(seq) == 0:
+        return []
+    return [seq[0].strip(b"\r\n")] + stripped(seq[1:])
+
+
+def clean(seq):
+    """no line is an armor line or a separator for the reader (after stripping CR / LF)"""
+    if len(seq) == 0:
+        return True
+    return (not is_armor(seq[0].strip(b"\r\n"))) and (not is_blank(seq[0].strip(b"\r\n"))) and clean(seq[1:])
+
+
+class SplitGpg(Contract):
+    target = MOD + ":Deb822.split_gpg_and_payload"
+    modular = False
+    max_probes = 40        # most syntactic paths of the state machine are infeasible under `clean`: probe them all
+    requires = ("clean(sequence)", "len(sequence) > 0", "not is_initial_blank(sequence[0].strip(b'\\r\\n'))")
+    ensures = ("result[1] == stripped(sequence)", "len(result[0]) == 0 and len(result[2]) == 0")
+    loops = {0: LoopSpec(invariants=("0 <= si and si <= len(sequence)",
+                                     "lines + stripped(sequence[si:]) == stripped(sequence)",
+                                     "clean(sequence[si:])",
+                                     "len(gpg_pre_lines) == 0 and len(gpg_post_lines) == 0 and state == b'SAFE'",
+                                     "first_line == (si == 0)"),
+                         index="si", var_types={"line_": "bytes", "line": "bytes", "m": "objnone", "lines": ("list", "bytes"),
+                                                "gpg_pre_lines": ("list", "bytes"), "gpg_post_lines": ("list", "bytes")})}
+
+    def __init__(self, separates):
+        self.separates = separates
+
+    def setup(self, ex):
+        seq = fresh(("list", "bytes"), "sequence")
+        self.model_vars = [str(seq.val.t)]
+        if self.separates:
+            strict = NONE
+        else:
+            strict = ex.world.speclib.make_dict(ex, [])
+            ex.world.speclib.dict_set(ex, strict, lift("whitespace-separates-paragraphs"), VBool(False))
+        return {"sequence": seq, "strict": strict}
+
+
+def verify_split_gpg(ctx, real):
+    """split_gpg_and_payload under contract (shared with C08, C12 and C17, whose round trips go through it)"""
+    D = real.Deb822
+    for separates in (True, False):
+        sl = SpecLib()
+        w = World(sl)
+        blank = D._blank_line_whitespace if separates else D._blank_line_no_whitespace
+
+        def mk(pat):
+            return VFunc("builtin", "re_test", fn=lambda ex, a, kw, pat=pat: VBool(ex.truth(sl.re_match(ex, pat, a[0], "match"))))
+        w.spec_env["is_armor"] = mk(D._gpgre)
+        w.spec_env["is_blank"] = mk(blank)
+        w.spec_env["is_initial_blank"] = mk(D._initial_blank_line)
+        w.spec_func(stripped, rec=dict(args=["list:bytes"], ret=("list", "bytes")))
+        w.spec_func(clean, rec=dict(args=["list:bytes"], ret="bool"))
+        c = SplitGpg(separates)
+        c.__class__ = type("SplitGpg_%s" % ("default" if separates else "whitespace_does_not_separate"), (SplitGpg,), {})
+        verify_contracts(ctx, w, [c], {})
+    ctx.solve()
+
+
 def run(ctx):
     mod = extract.load(MOD)
     real = mod.real()
     regex_lemmas(ctx, real)
+    verify_split_gpg(ctx, real)
     for q in ("Deb822._internal_parser", "Deb822._skip_useless_lines", "Deb822.split_gpg_and_payload", "Deb822._dump_format",
               "Deb822.iter_paragraphs", "Deb822._gpg_stripped_paragraph"):
         node, _ = mod.lookup(q)
@@ -252,7 +328,7 @@ def run(ctx):
     ctx.explanation = ("PROVED for all lines (SMT on the real pattern objects): every dumped 'Key: first' line matches _single and its "
                        "groups are exactly the key and the first line; every dumped 'Key:' line matches _multi (not _single) with the key "
                        "as group; continuation lines never start a field and are kept by _multidata; an encoded field line is never "
-                       "taken for a PGP armor line, a paragraph separator or an initial blank line. NOT proved: the parser loop, "
+                       "taken for a PGP armor line, a paragraph separator or an initial blank line; split_gpg_and_payload, from its real AST, returns exactly the lines (CR / LF stripped) as payload - nothing taken for armor, nothing cut off - for every sequence of lines none of which matches the armor pattern or the separator pattern in force (loop invariant over the line index; both parser settings). NOT proved: the field-collecting loop of _internal_parser, "
                        "_skip_useless_lines, the six input forms and iter_paragraphs - BOUNDED part (see module docstring).")
     ctx.assumptions += ["capture lemmas quantify over every way the pattern can match (all-paths semantics of the regex); re reports one "
                         "of them - the priority order of backtracking is not modelled and not needed",
